@@ -37,6 +37,9 @@ META = {
             "expiry representable as system_clock::time_point), clock >= 0, at most 10^7 operations (finding F22).",
 }
 
+# ---- additions of the translator / tie session (appended to the manifest texts)
+META["text"] += " GenTie.v: kv_ok is the write-path bound of the current headers (coq/Gen/Constants.v, regenerated every run)."
+
 MAXV = 100 * 1024 * 1024
 
 
